@@ -78,4 +78,23 @@ Section Lsp.
     | [] => (d, [])
     | m :: r => let '(d1, o1) := step d m in let '(d2, o2) := run d1 r in (d2, o1 ++ o2)
     end.
+  (* The life of the process (lsp.rs: start_with_connection; lsp_server: Connection::handle_shutdown, stdio reader):
+     LspServer::run hands messages to `step` until a shutdown request arrives or the input ends; the reader thread stops
+     at an exit notification, which ends the input; a shutdown request is answered with null and the process then ends
+     -- with status 0 exactly when the next message is the exit notification.  What the process wrote, the id of the
+     shutdown request it answered, and whether the status is 0. *)
+  Inductive frame :=
+    | Msg (m : msg)
+    | Shutdown (id : N)
+    | Exit.
+
+  Record ended := mkEnded { e_out : list out; e_shutdown : option N; e_clean : bool }.
+
+  Fixpoint session (d : docs) (fs : list frame) : ended :=
+    match fs with
+    | [] => mkEnded [] None false                                   (* "terminated but no shutdown" *)
+    | Msg m :: r => let '(d1, o1) := step d m in let e := session d1 r in mkEnded (o1 ++ e_out e) (e_shutdown e) (e_clean e)
+    | Exit :: _ => mkEnded [] None false                            (* the reader stops: the input has ended *)
+    | Shutdown id :: r => mkEnded [] (Some id) (match r with Exit :: _ => true | _ => false end)
+    end.
 End Lsp.
